@@ -19,6 +19,7 @@ import os
 import random
 
 PROPERTY = "C06"
+CASE_TIMEOUT = 300  # s of wall clock per case in pool workers (runner watchdog): a case that spins forever is a verdict, not exit 2
 THEOREM_MODULE = "NemoVerif.Theorems.C06"
 RULE = ("program: main + 1..5 flows in a call DAG (each flow either only activated or only started/awaited), bodies from "
         "match / start action / await action / start|await|activate flow / and-or groups / when-or when-else / abort / "
